@@ -75,3 +75,13 @@ Theorem C12_where_bool_lowering_selects : forall c a b : bool, xorb (c && a) (ne
 Proof. exact where_bool_trick. Qed.
 Example C12_ex_nonzero : ndx_nonzero [2; 3]%nat [0; 5; 0; 7; 0; 9]%Z = [[0; 1; 1]; [1; 0; 2]]%nat.
 Proof. reflexivity. Qed.
+
+(* where on int8 / int16 (through int32) and on uint16 / uint32 / uint64 (through int64): the detour through the wider
+   signed type and the cast back are invisible for in-range operands — uint64 values >= 2^63 pass through negative
+   int64 numbers and come back exactly *)
+From ND Require Import Base.Dtype Ndx.ElemSem Ndx.WhereCast.
+Theorem C12_where_through_a_wider_type_selects : forall c c' (b : bool) (x y : Z),
+  is_int c = true -> is_int c' = true -> (zbits c <= zbits c')%Z -> in_range c x -> in_range c y ->
+  wrap c (if b then wrap c' x else wrap c' y) = if b then x else y.
+Proof. exact where_via_wider_type. Qed.
+Print Assumptions C12_where_through_a_wider_type_selects.
